@@ -21,7 +21,7 @@
 
    StuckReader = TRUE enables the finding action ReadPendingLastStuck next to the intended
    ReadPendingLast: reader.Read clears the partially consumed chunk without advancing chunkIndex
-   (what /repo does at the pinned commit).  A reader that took it is marked `stuck`; the read-back
+   (what /repo did up to commit bce4f3ae, which repaired it; see fixes/C31-*.diff).  A reader that took it is marked `stuck`; the read-back
    invariants speak about readers that are not (the *All variants speak about every reader and are
    what TLC refutes when the finding action is enabled).  With FALSE only the intended behaviour exists. *)
 EXTENDS Integers, Sequences, FiniteSets, TLC
